@@ -10,17 +10,17 @@ TEXT = {
  'C02': ('co-simulation of behavioural blocks (8 library blocks that reach the transpiler + seeded random clock()/propagate() programs with interval-checked value ranges + one-unsupported-construct programs) against vsim; outputs and integer state variables compared after every edge; refusal clause: exception, or text that elaborates and agrees',
          'samples programs and input histories; trusted base: vsim; programs kept inside the stated value domain by construction; open findings KF-C02-1/2'),
  'C03': ('every text returned by seeded generation histories (whole hierarchy, child module via different ancestors, createdStructures, interleaved/crashed generations) over netlists with seeded naming faults is parsed and elaborated by vsim with exactly the rules the statement lists',
-         'static property; the simulator contributes the elaborator and the call-history dimension; open findings KF-C03-1..5'),
+         'static property; the simulator contributes the elaborator and the call-history dimension; instances that share a module name must give the same body; designs of 300-1000 modules in a seeded minority; open findings KF-C03-1..5'),
  'C04': ('seeded search over instantiation orders, late construction, re-sorts, restarts and duplicate evaluation; oracles: topological order, local fixpoint of every stateless leaf, equality with a twin whose real leaves are evaluated by the harness in its own Kahn order, refusal of combinational cycles (length 1-12, across hierarchy), acceptance of cycles through registers',
-         'samples schedules and netlists; twin shares the leaf propagate() code (functional defects are C07/C08 matters)'),
+         'samples schedules and netlists; a seeded minority of bulk netlists (1100-17000 leaves, 33000 thorough), 12-48 level hierarchies and 260-bit wires; twin shares the leaf propagate() code (functional defects are C07/C08 matters)'),
  'C05': ('visit order of drivers / clockables / listeners re-drawn before every edge, runs split, cancelled (stop) and resumed, re-sorted, restarted; oracles: twin stepped one edge at a time by the harness, pure-Python two-phase reference, Wire.prepared empty after every call, no double prepare, total_clks accounting',
-         'samples designs and schedules; inputs change only between clk calls'),
+         'samples designs and schedules; a seeded minority of 300-4200 register rings, 300-2500 edge bursts, deep hierarchies; inputs change only between clk calls'),
  'C06': ('adversarial constants / reset values / sequence values / pokes (negative, oversized, 2**200) over the whole catalogue; range invariant checked after construction, after every clk, inside listeners and in Waveform samples; the same invariant is monitored in every run of every other check',
          'samples; observation = Wire.value of every reachable wire'),
  'C07': ('one arithmetic block per run inside a registered live testbench with toggling vector sequences and schedule faults (perm_children, resort, sim_restart, extra_settle); oracle: integer function modulo 2**width',
-         'weak fit stated in DESIGN.md: the deciding dimension is seeded sampling of (configuration, input); simulation adds history/schedule independence'),
+         'weak fit stated in DESIGN.md: the deciding dimension is seeded sampling of (configuration, input); simulation adds history/schedule independence; 12 % of the runs beyond 64 bits (to 260)'),
  'C08': ('one logic/selector/comparator block per run inside a registered live testbench with schedule faults; oracle: documented truth table',
-         'weak fit stated in DESIGN.md; sampled, never enumerated products'),
+         'weak fit stated in DESIGN.md; sampled, never enumerated products; 12 % of the runs beyond 64 bits / 64 inputs (to 260 bits, 130 inputs)'),
  'C09': ('one sequential block per run from power-up under Markov input histories (collisions of reset/enable/inc, push+pop, overfill, same-address read/write), permuted leaf visit order, split/re-sorted/restarted runs; oracle: documented state machine after every call',
          'samples histories and configurations; models in dsim/catalog.py'),
  'C10': ('1-4 clock drivers at seeded hierarchy levels, enables from inputs / other domains / the gated domain itself, 1-3 bit enables, long and single-cycle stalls, permuted driver and leaf order; oracles: reference that clocks a node iff its nearest driver was enabled before the edge, twin of real blocks under the same rule, explicit hold check',
@@ -35,7 +35,7 @@ TEXT = {
          'samples'),
  'C16': ('real adapters (and a kernel with VitisKernelFSM) against fake AXI master/slave/controller with stalls, bursts, reset/done/restart/load landing inside transfers; statement-derived monitors over the recorded history (READY = active, capture/clear rules, VALID persistence, data = latest load, LAST = VALID, KEEP, sent only after a beat, bounded progress)',
          'samples schedules; beat = VALID & READY & active; done only after a completed transfer'),
- 'C17': ('real serializer -> line -> clock recovery + deserializer with seeded gaps, bursts, phase, bounded consumer stalls, ratios 4-64, permuted leaf order; oracles: exactly-once in-order delivery, independent software 8N1 receiver on the recorded line, bounded latency',
+ 'C17': ('real serializer -> line -> clock recovery + deserializer with seeded gaps, bursts, phase, bounded consumer stalls, ratios 4-64 (a seeded minority at 434-868 and 2604-10416 clocks per bit), permuted leaf order; oracles: exactly-once in-order delivery, independent software 8N1 receiver on the recorded line, bounded latency',
          'samples; consumer READY never low for more than 3 bit times'),
  'C19': ('histories over 1-3 circuits (hierarchy / child-module generation via different ancestors, same / fresh generator, createdStructures, simulation steps, crashing generation, circuit extended between generations); oracles: canonical text stable per request, never-generated twin simulates identically, text after extension equals that of a never-generated circuit',
          'samples histories; canonicalisation = hex-suffix renaming + sorted wire declarations (the two differences the statement allows)'),
